@@ -465,17 +465,16 @@ func (cs *connState) ClearTag(t tag) {
 	close(ch)
 }
 
-// Waittag waits for a tag to finish.
-func (cs *connState) WaitTag(t tag) {
+// TagDone returns a channel that is closed when the given tag, if it is
+// currently active, finishes processing. It returns nil for an idle tag.
+func (cs *connState) TagDone(t tag) <-chan struct{} {
 	cs.tagMu.Lock()
+	defer cs.tagMu.Unlock()
 	ch, ok := cs.tags[t]
-	cs.tagMu.Unlock()
 	if !ok {
-		return
+		return nil
 	}
-
-	// Wait for close.
-	<-ch
+	return ch
 }
 
 // handleRequest handles a single request.
@@ -516,6 +515,23 @@ func (cs *connState) handleRequest() bool {
 		return false
 	}
 
+	// Activate the tag while still holding recvMu, so that tags become
+	// active in the order in which requests were received. A Tflush captures
+	// here what it has to wait for: the request using OldTag that was
+	// received before it, if that is still running. It must never wait for
+	// itself or for a request received later (which may in turn be a flush
+	// waiting for this one), or it would never be answered.
+	started := false
+	if err == nil || err == io.EOF {
+		started = cs.StartTag(tag)
+		if f, ok := m.(*tflush); ok {
+			f.wait = nil
+			if started && f.OldTag != tag {
+				f.wait = cs.TagDone(f.OldTag)
+			}
+		}
+	}
+
 	// Ensure that another goroutine is available to receive from cs.t.
 	if atomic.LoadInt32(&cs.recvIdle) == 0 {
 		cs.pendingWg.Add(1)
@@ -539,8 +555,8 @@ func (cs *connState) handleRequest() bool {
 		return true
 	}
 
-	// Try to start the tag.
-	if !cs.StartTag(tag) {
+	// Was the tag already in use?
+	if !started {
 		cs.server.log.Printf("no valid tag [%05d]", tag)
 		// Nothing we can do at this point; client is bogus.
 		return true
